@@ -267,11 +267,14 @@ pub fn run_tls(c: &TlsCase) -> Outcome {
 }
 
 pub fn decode_tls(s: &mut Src) -> TlsCase {
-    let sel = s.pick(&[1u32, 2, 1, 2, 0, 8, 3, 4]);
+    let sel = s.pick(&[1u32, 2, 1, 2, 1, 2, 0, 8, 3, 4]);
+    // decided before the (long) base case so that short choice strings still vary them
+    let check = s.bool();
+    let ca_signed = s.bool();
     let mut base = c17::gen_case(s, None);
-    base.cfg.check_certificate = s.bool();
+    base.cfg.check_certificate = check;
     // the CA-signed identity half of the time when checking
-    if base.cfg.check_certificate && s.bool() {
+    if check && ca_signed {
         base.identity = 0;
     }
     TlsCase { base, selected: sel }
@@ -282,9 +285,9 @@ pub fn check(rep: &Report) {
     rep.assume("on the scripted transport there is no TLS peer, so an acceptable selection ends in a handshake error; only the bytes written matter there");
     rep.assume("HYBRID_EX (8) is not offered by this client and counts as unoffered");
     rep.enumerate("scripted-sweep", true, sweep, run);
-    rep.random("scripted-random", rep.tier.n(40_000, 2_000_000), 24, decode, run);
-    rep.random("tls", rep.tier.n(600, 20_000), 160, decode_tls, run_tls);
-    rep.require("tls", "check-cert:untrusted", 30);
-    rep.require("tls", "check-cert:trusted", 30);
+    rep.random("scripted-random", rep.tier.n(200_000, 4_000_000), 24, decode, run);
+    rep.random("tls", rep.tier.n(1_000, 30_000), 160, decode_tls, run_tls);
+    rep.require("tls", "check-cert:untrusted", 10);
+    rep.require("tls", "check-cert:trusted", 10);
     rep.require("tls", "tls:must-refuse", 50);
 }
